@@ -39,7 +39,10 @@ RULE = ("class hierarchies: every structured plan {frozen root by attr.s(frozen=
         "with an initializer: one real construction, then EVERY history over a 5-operation alphabet "
         "{set f, del f, set unknown, del unknown, f += v} of length 3 (quick) / 5 (thorough, for a sample; 4 "
         "otherwise), every history of length 2 (quick) / 3 over an odd-name alphabet (__dict__, __class__, "
-        "__weakref__, __slots__, __doc__, _attrs_cached_hash) and, on exceptions, over the bookkeeping alphabets, "
+        "__weakref__, __slots__, __doc__, _attrs_cached_hash), every history of length 2 over names NEAR the bookkeeping "
+        "names (substrings, superstrings, prefixes/suffixes, other spellings of __cause__ ... __notes__, the empty name; "
+        "fields are renamed n / s / note / notes / ... so that deleting such a name hits a real field) and, on "
+        "exceptions, over the bookkeeping alphabets, "
         "plus seeded random histories up to length 7 over the whole operation pool; each history starts from a "
         "fresh instance; observed after each step: exception class (FrozenInstanceError exactly / other "
         "AttributeError / TypeError / none) and the full state (every field, vars(), hash-cache attribute, "
@@ -654,6 +657,15 @@ def draw_attrs_desc(rng, uidc, h_cuts, base_idx, opts):
     else:
         spec["style"] = rng.choice(["annot", "attrib_in_define", "these"])
     spec["frozen"] = bool(opts["frozen"]) or api == "alias"
+    # fields whose names are substrings of a bookkeeping name (n, s, note, ...): more often on exception roots
+    if spec["fields"] and rng.random() < (0.5 if (opts.get("exc") and base is None) else 0.15):
+        taken = {f["name"] for f in spec["fields"]} | set(base.field_names if base is not None else ())
+        for f in rng.sample(spec["fields"], min(len(spec["fields"]), rng.choice([1, 1, 2]))):
+            new = rng.choice(NEAR_FIELDS)
+            if new in taken:
+                continue
+            taken.add(new)
+            f["name"], f["alias"], f["uid"] = new, None, "%s_%s" % (new, uid)
     if "slots" in opts:
         spec["slots"] = opts["slots"]
     if "exc" in opts:
@@ -831,6 +843,51 @@ def realise(plan, rng, uidc):
     return h
 
 
+BOOKKEEPING = MEMBERS + ["__notes__"]          # the names of the two tuples in _frozen_setattrs / _frozen_delattrs
+# field names that are substrings of a bookkeeping name (valid identifiers, usable as parameters)
+NEAR_FIELDS = ["n", "s", "note", "notes", "t", "es", "e", "cause", "context", "ext", "back", "suppress"]
+
+
+def near_names(rng, k):
+    """Names NEAR the bookkeeping names: substrings (a tuple that degenerates into a string makes `in` a substring
+    test), superstrings, prefixes / suffixes, other spellings - never one of the four typed members themselves."""
+    out = []
+    while len(out) < k:
+        lit = rng.choice(BOOKKEEPING)
+        how = rng.randrange(8)
+        if how <= 2:
+            i = rng.randrange(len(lit))
+            j = rng.randrange(i + 1, len(lit) + 1)
+            nm = lit[i:j]
+        elif how == 3:
+            nm = lit.strip("_")
+        elif how == 4:
+            nm = lit + rng.choice(["x", "_", "__"])
+        elif how == 5:
+            nm = rng.choice(["x", "_"]) + lit
+        elif how == 6:
+            nm = rng.choice([lit[:-1], lit[1:], lit[:-2], lit[2:]])
+        else:
+            nm = rng.choice([lit.upper(), lit.replace("_", ""), ""])
+        if nm in MEMBERS or not all(32 < ord(c) < 127 for c in nm):
+            continue
+        out.append(nm)
+    return out
+
+
+def near_ops(rng, names, fields):
+    """operations over near names; a field that is itself such a name is always among them"""
+    ops = []
+    for f in fields[:2]:
+        ops.append(["del", f])
+    for nm in names:
+        kind = rng.choice(["del", "del", "set", "aug"])
+        if kind == "aug" and not nm.isidentifier():
+            kind = "del"
+        ops.append([kind, nm] + ([["atok" if kind == "aug" else "tok", rng.randint(11, 19)]] if kind != "del" else []))
+    return ops
+
+
 def alphabets(cut, rng, sa, da, tier):
     """[(ops, max length, tag)]"""
     cls = cut.cls
@@ -873,6 +930,14 @@ def alphabets(cut, rng, sa, da, tier):
     elif is_frozen:
         out.append(([["set", "__cause__", ["exc", 31]], ["set", "__notes__", ["tok", 14]], ["del", "__notes__"],
                      ["aug", "__notes__", ["atok", 23]], ["set", "__traceback__", ["tb"]]], 2, "bookkeeping-nonexc"))
+    if is_frozen:
+        near_fields = [n for n in names if any(n in lit for lit in BOOKKEEPING)]
+        rng.shuffle(near_fields)
+        ops = near_ops(rng, near_names(rng, 5), near_fields)[:5]
+        # at least two substrings of a deletable name are deleted
+        subs = [nm for nm in near_names(rng, 40) if nm and nm in "__notes__" and nm != "__notes__"][:2]
+        ops = ([["del", nm] for nm in subs] + ops)[:5]
+        out.append((ops, 2, "near-bookkeeping"))
     return out, usable, is_frozen, is_exc
 
 
@@ -881,7 +946,7 @@ def random_ops(rng, usable, is_frozen, is_exc, n):
     for _ in range(n):
         names = list(usable) + ["unk", "unk2"]
         if is_frozen:
-            names += ODD + (["__cause__", "__notes__"] if not is_exc else [])
+            names += ODD + (["__cause__", "__notes__"] if not is_exc else []) + near_names(rng, 3)
         kind = rng.choice(["set", "set", "del", "aug"])
         if is_exc and rng.random() < 0.4:
             nm = rng.choice(MEMBERS + ["__notes__", "__notes__"])
@@ -897,6 +962,8 @@ def random_ops(rng, usable, is_frozen, is_exc, n):
                 ops.append(["set", nm, rng.choice([v, v, ["none"]]) if nm != "__suppress_context__" else v])
             continue
         nm = rng.choice(names)
+        if kind == "aug" and not nm.isidentifier():
+            kind = "del"
         ops.append([kind, nm] + ([["atok" if kind == "aug" else "tok", rng.randint(11, 19)]] if kind != "del" else []))
     return ops
 
@@ -979,7 +1046,7 @@ def generate(tier, seed):
         order = list(range(len(all_plans)))
         if tier == "quick":
             # every plan family is kept; thin out the big cartesian blocks
-            order = [i for i in order if rng.random() < 0.45 or len(all_plans[i]) == 1]
+            order = [i for i in order if rng.random() < 0.38 or len(all_plans[i]) == 1]
         for i in order:
             h = realise(all_plans[i], rng, uidc)
             if h is None:
